@@ -7,6 +7,20 @@ use crate::rng::Rng;
 use crate::scen::Spec;
 use std::collections::HashSet;
 
+/// Section names real programs look up (present in some images, absent in most).
+pub const COMMON_NAMES: [&str; 10] = [
+    ".debug_info",
+    ".debug_abbrev",
+    ".zdebug_info",
+    ".comment",
+    ".text",
+    ".data",
+    ".bss",
+    ".gnu_debuglink",
+    ".rela.dyn",
+    ".note.gnu.build-id",
+];
+
 /// The op generator stops introducing new byte ranges once a stream has been asked for
 /// this many distinct (start,size) pairs (keeps the cache's bookkeeping a fixed few KiB).
 pub const MAX_DISTINCT_RANGES: usize = 112;
@@ -113,6 +127,29 @@ fn synth_shdr(rng: &mut Rng, s: &Shdr, len: u64) -> Shdr {
         }
     }
     t
+}
+
+/// "Arithmetic twin" of a range that was already queried: the same range displaced by a
+/// power of two that a truncating, packing or hashing cache key would lose (2^16, 2^31,
+/// 2^32, 2^48, 2^63), or the two numbers packed into one. The twin lies outside any real
+/// file, so the only correct answer is an error; a cache that confuses it with the cached
+/// original answers Ok.
+fn alias_twin(rng: &mut Rng, off: u64, size: u64) -> (u64, u64) {
+    let end = off.wrapping_add(size);
+    let sh = *rng.pick(&[16u32, 31, 32, 48, 63]);
+    let d = 1u64 << sh;
+    match rng.below(8) {
+        0 => (off.wrapping_add(d), size),
+        1 => (off, size.wrapping_add(d)),
+        2 => (off.wrapping_add(d), size.wrapping_add(d)),
+        // (start << 32) | end packed into one word, seen as a size from offset 0
+        3 => (0, (off << 32) | (end & 0xffff_ffff)),
+        4 => (0, (end << 32) | (off & 0xffff_ffff)),
+        // start kept, end displaced so that the low 32 bits of the end agree
+        5 => (off, (end.wrapping_add(d)).wrapping_sub(off)),
+        6 => (off | d, size),
+        _ => (off, size | d),
+    }
 }
 
 fn synth_phdr(rng: &mut Rng, p: &Phdr, len: u64) -> Phdr {
@@ -271,12 +308,53 @@ pub fn gen_ops(
             continue;
         }
         let allow_new = ranges.len() < MAX_DISTINCT_RANGES;
+        // an arithmetic twin of a range that was already asked for (1 in 12)
+        if allow_new && rng.chance(1, 12) {
+            let prior: Vec<&Op> = ops.iter().filter(|o| range_of(o).is_some()).collect();
+            if !prior.is_empty() {
+                let base = (*rng.pick(&prior)).clone();
+                let (o, z) = range_of(&base).unwrap();
+                let (o2, z2) = alias_twin(rng, o, z);
+                let twin = match &base {
+                    Op::SegNotes(p) => {
+                        let mut p2 = *p;
+                        p2.offset = o2;
+                        p2.filesz = z2;
+                        Op::SegNotes(p2)
+                    }
+                    other => {
+                        let mut s2 = *other.shdr_arg().unwrap();
+                        s2.offset = o2;
+                        s2.size = z2;
+                        // section_data is the accessor whose success must coincide exactly
+                        if rng.chance(2, 3) {
+                            Op::SectionData(s2)
+                        } else {
+                            match other {
+                                Op::AsStrtab(_) => Op::AsStrtab(s2),
+                                Op::AsRels(_) => Op::AsRels(s2),
+                                Op::AsRelas(_) => Op::AsRelas(s2),
+                                Op::AsNotes(_) => Op::AsNotes(s2),
+                                _ => Op::SectionData(s2),
+                            }
+                        }
+                    }
+                };
+                if let Some(r) = range_of(&twin) {
+                    ranges.insert(r);
+                }
+                ops.push(twin);
+                continue;
+            }
+        }
         let c = rng.below(20);
         let op = match c {
             0..=5 => rng.pick(&globals).clone(),
             6..=7 => {
                 // name lookup: present, absent, prefix/suffix of present, empty
-                let n = if names.is_empty() || rng.chance(1, 4) {
+                let n = if rng.chance(1, 5) {
+                    (*rng.pick(&COMMON_NAMES)).to_string()
+                } else if names.is_empty() || rng.chance(1, 4) {
                     (*rng.pick(&["", ".absent", ".text", ".symtab", ".shstrtab"])).to_string()
                 } else {
                     let n = rng.pick(&names).clone();
@@ -386,6 +464,12 @@ pub fn full_query_set(bytes: &[u8], m: &Model, slice_extras: bool) -> Vec<OpRec>
     }
     ops.push(Op::ByName(".absent".into()));
     ops.push(Op::ByName(String::new()));
+    // names real programs ask for, whether or not this file has them
+    for n in COMMON_NAMES.iter() {
+        if seen.insert((*n).to_string()) {
+            ops.push(Op::ByName((*n).to_string()));
+        }
+    }
     let max_hdrs = 96;
     for s in m.shdrs.iter().take(max_hdrs) {
         ops.push(Op::SectionData(*s));
